@@ -171,6 +171,14 @@ def falsify(ctx):
             extra = gen_arg(rng).replace("\x00", "")
             base = ["-m", "Root", rng.choice(["d.json", "plain.json"]), "-f", rng.choice(common.FRAMEWORKS + ["base", "base"]),
                     "--dict-keys-fields", extra or "x"]
+            # every other option the front end has may stand next to the preamble; whatever it does, stdout stays one module
+            # that starts with the header
+            OPTS = [[], ["--datetime"], ["--datetime", "--disable-str-serializable-types", "IsoDateString"],
+                    ["--disable-str-serializable-types", "float", "nosuchtype"], ["--datetime", "--disable-str-serializable-types", "date", "time"],
+                    ["--disable-str-serializable-types", "IsoTimeString"], ["--merge", "exact"], ["-s", "nested"],
+                    ["--max-strings-literals", "0"], ["--strings-converters"], ["--disable-unicode-conversion"],
+                    ["--code-generator-kwargs", "meta=true"]]
+            base = base + (OPTS[k % len(OPTS)] if k % 2 == 0 else [])
             argv = base + ["--preamble=" + pre]
             jobs.append((argv, d, ctx.repo))
             jobs.append((base, d, ctx.repo))
